@@ -34,6 +34,8 @@ type World struct {
 	Overlay    map[string]string // virtual path -> real path
 	TmpDir     string
 	dump       map[string]map[string]json.RawMessage // pkg path -> var -> json
+	Virtual    map[string][]string
+	scratch    string
 	LoadTime   time.Duration
 	DumpTime   time.Duration
 }
@@ -54,8 +56,16 @@ func GoEnv() []string {
 
 // Load loads the given repo packages (relative dirs like "board", "uci") plus the vp support package.
 func Load(repoDir, harnessDir string, pkgDirs []string, tags string) (*World, error) {
+	return LoadV(repoDir, harnessDir, pkgDirs, tags, nil)
+}
+
+// LoadV is Load with virtual packages: virt maps a directory name (created only in the overlay, directly under the
+// repository root) to repo-relative source files that are presented there, so that code of the separate tuner
+// module (whose dependencies are not available offline) can be loaded from /repo's working tree as a package of
+// the main module together with its harness.
+func LoadV(repoDir, harnessDir string, pkgDirs []string, tags string, virt map[string][]string) (*World, error) {
 	t0 := time.Now()
-	w := &World{RepoDir: repoDir, HarnessDir: harnessDir, Tags: tags, Pkgs: map[string]*ssa.Package{}, TPkgs: map[string]*packages.Package{}, Overlay: map[string]string{}}
+	w := &World{Virtual: virt, RepoDir: repoDir, HarnessDir: harnessDir, Tags: tags, Pkgs: map[string]*ssa.Package{}, TPkgs: map[string]*packages.Package{}, Overlay: map[string]string{}}
 	tmp, err := os.MkdirTemp("", "vp-")
 	if err != nil {
 		return nil, err
@@ -72,7 +82,21 @@ func Load(repoDir, harnessDir string, pkgDirs []string, tags string) (*World, er
 		}
 		files, _ := filepath.Glob(filepath.Join(harnessDir, e.Name(), "*.go"))
 		for _, f := range files {
-			w.Overlay[filepath.Join(repoDir, e.Name(), "zz_vp_"+filepath.Base(f))] = f
+			// snapshot the harness file so that the symbolic run and its native replays see the same text
+			data, err := os.ReadFile(f)
+			if err != nil {
+				return nil, err
+			}
+			cp := filepath.Join(tmp, "harness_"+e.Name()+"_"+filepath.Base(f))
+			if err := os.WriteFile(cp, data, 0o644); err != nil {
+				return nil, err
+			}
+			w.Overlay[filepath.Join(repoDir, e.Name(), "zz_vp_"+filepath.Base(f))] = cp
+		}
+	}
+	for vdir, files := range virt {
+		for _, rel := range files {
+			w.Overlay[filepath.Join(repoDir, vdir, filepath.Base(rel))] = filepath.Join(repoDir, rel)
 		}
 	}
 	ov := map[string][]byte{}
@@ -199,6 +223,9 @@ func (w *World) DumpGlobals() error {
 		p := w.TPkgs[path]
 		if !strings.HasPrefix(path, ModPath+"/") || path == ModPath+"/vp" || len(p.GoFiles) == 0 {
 			continue
+		}
+		if _, isVirt := w.Virtual[strings.TrimPrefix(path, ModPath+"/")]; isVirt {
+			continue // overlay-only directory: cannot run a native test there; its globals keep their zero values
 		}
 		scope := p.Types.Scope()
 		var names []string
@@ -455,4 +482,40 @@ func (w *World) decodeSeq(x *vexec.Exec, raw json.RawMessage, elem types.Type, n
 		a.E[i] = w.decode(x, e, elem)
 	}
 	return a
+}
+
+// ScratchModule materialises the virtual packages (and vp) as a real module with the main module's path, so that
+// native replays of harnesses living in overlay-only packages can run (`go test` needs a real directory).
+func (w *World) ScratchModule() (string, error) {
+	if w.scratch != "" {
+		return w.scratch, nil
+	}
+	dir := filepath.Join(w.TmpDir, "scratchmod")
+	if err := os.MkdirAll(dir, 0o755); err != nil {
+		return "", err
+	}
+	if err := os.WriteFile(filepath.Join(dir, "go.mod"), []byte("module "+ModPath+"\n\ngo 1.25.4\n"), 0o644); err != nil {
+		return "", err
+	}
+	for virt, real := range w.Overlay {
+		rel, err := filepath.Rel(w.RepoDir, virt)
+		if err != nil {
+			continue
+		}
+		top := strings.Split(rel, string(filepath.Separator))[0]
+		if _, ok := w.Virtual[top]; !ok && top != "vp" {
+			continue
+		}
+		data, err := os.ReadFile(real)
+		if err != nil {
+			return "", err
+		}
+		dst := filepath.Join(dir, rel)
+		os.MkdirAll(filepath.Dir(dst), 0o755)
+		if err := os.WriteFile(dst, data, 0o644); err != nil {
+			return "", err
+		}
+	}
+	w.scratch = dir
+	return dir, nil
 }
